@@ -18,7 +18,7 @@ LEVEL_NOTE = ("trusts the 10-line detector model in this module; observation by 
               "methods on the instance (dynamic lookup verified by counters); session id 0 is outside the stated domain")
 RULE = (
     "per key the state is the last (reboot flag, session id) or unknown over ids {1,2,3,0x7FFF,0xFFFE,0xFFFF}: every "
-    "(state, input) for one key, every (state1, state2, input on either key) for two keys that differ in sender or in "
+    "(state, input) for one key, every (state1, state2, input on either key) for two keys that differ in sender host, in sender port or in "
     "channel, then seeded random histories (<=200 messages, 4 senders x 2 channels, ids 1..0xFFFF, empty and non-empty SD "
     "messages, non-SD noise in between). distinct = distinct abstract (state(s), input) or random history prefix hash; "
     "non-trivial = key state known before the input"
@@ -26,7 +26,7 @@ RULE = (
 ASSUMPTIONS = ["detector model: flag and (not old_flag or sid <= old_sid); first message of a key never triggers",
                "messages are SD notifications with the unicast flag set; session id 0 never sent (C08)"]
 FLOORS = {"quick": {"messages_judged": 20000, "detections_expected": 3000, "fanout_checks": 3000,
-                    "single_key_transitions": 156, "two_key_cases": 2 * 13 * 13 * 24, "random_histories": 100,
+                    "single_key_transitions": 156, "two_key_cases": 3 * 13 * 13 * 24, "random_histories": 100,
                     "check_received_probe": 20000}}
 
 SIDS = (1, 2, 3, 0x7FFF, 0xFFFE, 0xFFFF)
@@ -132,7 +132,8 @@ def addr_for(i, v6=False):
 def shards(tier, seed):
     out = [dict(shard=0, seed=seed, mode="single"),
            dict(shard=1, seed=seed, mode="two", variant="other-sender"),
-           dict(shard=2, seed=seed, mode="two", variant="other-channel")]
+           dict(shard=2, seed=seed, mode="two", variant="other-channel"),
+           dict(shard=3, seed=seed, mode="two", variant="other-port")]
     k = 4 if tier == "quick" else 16
     n = 40 if tier == "quick" else 3000
     out += [dict(shard=10 + i, seed=seed, mode="random", n=n) for i in range(k)]
@@ -176,6 +177,8 @@ def run(spec, ctx):
                             a1 = addr_for(next(fresh))
                             if spec["variant"] == "other-sender":
                                 k1, k2 = (a1, False), (addr_for(next(fresh)), False)
+                            elif spec["variant"] == "other-port":
+                                k1, k2 = (a1, False), ((a1[0], a1[1] + 1), False)
                             else:
                                 k1, k2 = (a1, False), (a1, True)
                             hist = []
@@ -190,7 +193,8 @@ def run(spec, ctx):
                             ctx.case(("two", spec["variant"], s1, s2, which, inp), s1 is not None or s2 is not None)
         else:
             for i in range(spec["n"]):
-                senders = [addr_for(next(fresh), v6=(j % 2 == 1)) for j in range(4)]
+                senders = [addr_for(next(fresh), v6=(j % 2 == 1)) for j in range(3)]
+                senders.append((senders[0][0], senders[0][1] + 1))  # same host as the first sender, other port
                 hist = []
                 L = rng.randrange(20, 201)
                 cur = {}
